@@ -86,7 +86,21 @@ def gen_script(rng, nnames, gen_share):
     return ' '.join(out)
 
 
+# values of `int enable_p` that permit redefinition: the model (and the documentation) take any non-zero value as TRUE
+TRUTHY = [1, 2, -1, 4, 256, 0x10000, -2, 0x7ffffffe, 0x40000000, -2147483648, 6, 0x100, 3, -256]
+
+
+def truthy_perm(rng, h, p):
+    if 'R 1' not in h:
+        return h
+    return ' ; '.join(('R %d' % rng.choice(TRUTHY)) if o.strip() == 'R 1' and rng.random() < p else o.strip() for o in h.split(';'))
+
+
 def gen_history(rng, nops, gen_share, reent=0.0):
+    return truthy_perm(rng, gen_history1(rng, nops, gen_share, reent), 0.6)
+
+
+def gen_history1(rng, nops, gen_share, reent=0.0):
     nnames = rng.choice([1, 2, 2, 3, 3, 4])
     ops = []
     if rng.random() < 0.6:
@@ -522,6 +536,10 @@ def run(chk):
             t = [rng7.choice(EXH_ALPHABET7) for _ in range(rng7.choice([5, 6, 7]))]
             t[-1] = rng7.choice([o for o in EXH_ALPHABET7 if o[0] == 'K'])
             ex.append(' ; '.join(t))
+    # round 3 (seeded C13-u2): the permission is an `int` truth value - every `R 1` of the exhaustive part is given, with
+    # probability 1/2 and on its own random stream, another truthy int (low bit clear, negative, one high bit, INT_MIN ...)
+    rng_t = chk.rng('truthy')
+    ex = [truthy_perm(rng_t, h, 0.5) for h in ex]
     hs += ex
     nrand = 20000 if quick else 150000
     for i in range(nrand):
